@@ -160,6 +160,20 @@ theorem c32_spaced_exact (r sp : Nat) (hr : r < 2 ^ 128)
     (hsp : sp < 2 ^ ((Rune.print r).length - 1)) : parse (print r sp) = .ok (r, sp) := by
   rw [c32_spaced_parse_print r sp hr, Nat.mod_eq_of_lt hsp]
 
+/-- Conversely, parsing any accepted spaced-rune string and printing the result gives the
+string back (with every `.` written as `•`), and the parsed mask has no bit at or past the last
+letter: accepted strings and pairs `(rune, spacers < 2^(len−1))` correspond one-to-one. -/
+theorem c32_spaced_print_parse (s : List Char) (r sp : Nat) (h : parse s = .ok (r, sp)) :
+    print r sp = normalize s ∧ sp < 2 ^ ((Rune.print r).length - 1) := by
+  obtain ⟨hne, hb, hr, hsp, hnorm⟩ := parse_ok s r sp h
+  have hup : ∀ c ∈ s.filter isUpper, isUpper c = true := by
+    intro c hc; exact (List.mem_filter.mp hc).2
+  have hparse : Rune.parse (s.filter isUpper) = .ok r :=
+    (parse_ok_iff _ _).mpr (Or.inr ⟨hne, hup, hb, hr⟩)
+  have hprint := c32_print_parse _ hne r hparse
+  rw [print, hprint]
+  exact ⟨hnorm.symm, hsp⟩
+
 example : print 702 5 = ['A', bullet, 'A', 'A'] := by
   have : Rune.print 702 = ['A', 'A', 'A'] := by
     rw [print_eq_printGen, printGen, symbolRev]; simp [symbolRev, letter]
